@@ -78,6 +78,12 @@ async fn settle() {
         tokio::task::yield_now().await;
     }
     tokio::time::sleep(std::time::Duration::from_millis(3)).await;
+    // under CPU load 3 ms of wall clock may not let a woken job task finish: push probe tasks through the
+    // runtime's queues behind it and wait for them
+    for _ in 0..4 {
+        let _ = tokio::spawn(async { tokio::task::yield_now().await }).await;
+        tokio::task::yield_now().await;
+    }
 }
 
 fn table(sh: &inproc::Sh) -> Vec<(usize, String)> {
@@ -230,6 +236,12 @@ async fn replay(ip: &Inproc, dir: &std::path::Path, events: &[String]) -> Value 
     // release everything so that no task stays blocked
     for k in &launched {
         gate(*k).notify_one();
+    }
+    // every job has been released: its marker must appear (deterministic end state, independent of load)
+    if !infeasible {
+        for k in &launched {
+            let _ = wait_for_mark(&format!("m{k}"), 3000).await;
+        }
     }
     settle().await;
     let t = table(&sh);
